@@ -320,6 +320,32 @@ func c20Analyse(res *core.Result, w *workload.SubWorld, s *sched.Sched, pre []in
 			}
 		}
 	}
+	// I8: the library never has two call-backs into one subscriber in progress
+	// at the same time (a subscriber is a connection; no sequential execution of
+	// the same calls could interleave two deliveries on it)
+	inSend := map[int]int{}
+	for _, e := range s.Log {
+		if e.Kind != sched.KCallout {
+			continue
+		}
+		p := strings.SplitN(e.Obj, "|", 3)
+		if len(p) < 2 {
+			continue
+		}
+		sid, _ := strconv.Atoi(p[1])
+		switch p[0] {
+		case "Send", "Cleanup":
+			if tk, busy := inSend[sid]; busy && tk != e.Task {
+				res.Violate("C20", "subscriber_callbacks_overlap", fmt.Sprintf("task %d called %s of subscriber %d at seq %d while task %d was still inside Send of the same subscriber", e.Task, p[0], sid, e.Seq, tk), nil)
+				return
+			}
+			if p[0] == "Send" {
+				inSend[sid] = e.Task
+			}
+		case "SendEnd":
+			delete(inSend, sid)
+		}
+	}
 	// mutation publishes report through the response
 	for _, cl := range all {
 		if cl.Op.Kind == "pubmut" {
